@@ -163,16 +163,6 @@ def consistent(aset):
     for k, ws in writes.items():
         if any(w.endswith("=") for w in ws) and len(ws) > 1:
             return False
-    # an assignment to a container clears it first: inferred content that arrived earlier would be retracted from the field
-    # (not from the graph) - outside the statement; so assigned containers must not receive inferred values either
-    facts = closure([f for x in aset for f in asserted_facts(x)])
-    for x in aset:
-        if x[0].endswith("="):
-            rel = {"member_of=": "member_of", "members=": "members", "sub=": "sub"}[x[0]]
-            subj = ("p" if rel == "member_of" else "c", x[1])
-            own = set(asserted_facts(x))
-            if any(f[0] == rel and f[1] == subj and f not in own for f in facts):
-                return False
     return True
 
 
@@ -182,9 +172,24 @@ POOL = [("works_for", p, c) for p in range(NP) for c in range(2)] + [("head_of",
        [("sub.append", x, y) for x in range(NC) for y in range(NC)] + [("sub=", 0, (1, 2)), ("sub=", 2, (0,))]
 
 
+def order_is_monotone(order):
+    """a container assignment clears the field first: it must be the first time the field receives anything, asserted OR
+    inferred (otherwise the assignment retracts inferred content from the field but not from the graph - outside the statement).
+    Content that is inferred into the field during or after the assignment is fine."""
+    facts = []
+    for x in order:
+        if x[0].endswith("="):
+            rel = {"member_of=": "member_of", "members=": "members", "sub=": "sub"}[x[0]]
+            subj = ("p" if rel == "member_of" else "c", x[1])
+            if any(f[0] == rel and f[1] == subj for f in closure(facts)):
+                return False
+        facts += asserted_facts(x)
+    return True
+
+
 def check_set(aset):
     want = closure([f for x in aset for f in asserted_facts(x)])
-    orders = list(itertools.permutations(aset))
+    orders = [o for o in itertools.permutations(aset) if order_is_monotone(o)]
     if len(orders) > 120:
         orders = rng.sample(orders, 120)
     for order in orders:
@@ -222,6 +227,8 @@ scripted = [
     [("works_for", 0, 0), ("works_for", 1, 0), ("members.add", 0, 1)],
     [("members=", 2, (0, 1)), ("works_for", 0, 1)], [("member_of=", 1, (0, 2)), ("works_for", 0, 0)],
     [("sub=", 0, (1, 2)), ("sub.append", 1, 2)],
+    [("sub.append", 1, 2), ("sub=", 0, (1,))], [("sub=", 1, (2,)), ("sub=", 0, (1,))], [("sub.append", 2, 0), ("sub=", 0, (1,)), ("sub.append", 1, 2)],
+    [("head_of", 0), ("members=", 1, (1,))], [("works_for", 0, 2), ("members=", 2, (1,))], [("member_of=", 0, (1,)), ("members.add", 2, 0)],
 ]
 for aset in scripted:
     if consistent(aset):
